@@ -6,6 +6,9 @@ import EaselModel.Alphabet.CatLemmas
 import EaselModel.Alphabet.SqLemmas
 import EaselModel.Alphabet.DealignLemmas
 import EaselModel.Alphabet.CustomDegen
+import EaselModel.Alphabet.DegenLemmas
+import EaselModel.Alphabet.ScVecLemmas
+import EaselModel.Alphabet.GuessLemmas
 /-! # C08 — property theorems (statements + glue only; lemmas live in Alphabet/*.lean)
 
 `G.dna`, `G.rna`, `G.amino`, `G.coins`, `G.dice` are the tables dumped from the code under check on this run
@@ -241,6 +244,31 @@ theorem custom_create_wfdegen (syms : List Nat) (K : Nat) (a : Alphabet) (hK : 1
 theorem custom_inmap_ops_keep_degen (a : Alphabet) (h : a.WFDegen) (sym c : Nat) (chars : List Nat) :
     (a.setEquiv sym c).2.WFDegen ∧ a.setCaseInsensitive.2.WFDegen ∧ (a.setIgnored chars).WFDegen :=
   ⟨setEquiv_wfdegen a h sym c, setCaseInsensitive_wfdegen a h, setIgnored_wfdegen a h chars⟩
+
+/-- `esl_alphabet_SetDegeneracy(a, c, ds)` that returns eslOK, lists pairwise distinct residues and none that is already
+    a member keeps `ndegen[x]` = size of the set of row `x` for every symbol (the C code adds one to `ndegen` per listed
+    character without looking at the row, so a repeated or already present residue breaks the equality — the averaging
+    theorems then no longer apply; `create_dna/rna/amino` satisfy the hypothesis: `std_wf`) -/
+theorem setdegeneracy_keeps_ndegen (a : Alphabet) (h : a.WFDegen) (c : Nat) (ds : List Nat)
+    (hok : (a.setDegeneracy c ds).1 = .ok) (hnd : (ds.filterMap a.strchrSym).Nodup)
+    (hfresh : ∀ x, a.strchrSym c = some x → ∀ y ∈ ds.filterMap a.strchrSym, (a.degen.getD x []).getD y 0 = 0) :
+    (a.setDegeneracy c ds).2.WFDegen :=
+  setDegeneracy_wfdegen a h c ds hok hnd hfresh
+
+/-- `esl_abc_{F,D}AvgScVec`: exactly the degenerate slots `K < x ≤ Kp-3` are filled, each with the mean of the canonical
+    scores over the set of `x`; canonical scores, gap, nonresidue and missing slots are untouched; no out-of-bounds access -/
+theorem avg_scvec_spec (a : Alphabet) (h : a.WFDegen) (hK : a.K + 4 ≤ a.Kp) (sc : List ℚ) (hl : sc.length = a.Kp) :
+    ∃ r, a.avgScVec sc = some r ∧ r.length = a.Kp ∧
+      ∀ x, r.getD x 0 = if a.K < x ∧ x + 3 ≤ a.Kp
+        then ((a.degenSet x).map fun i => sc.getD i 0).sum / ((a.degenSet x).length : ℚ) else sc.getD x 0 :=
+  avgScVec_spec a h hK sc hl
+
+/-- `esl_abc_GuessAlphabet` (model): eslOK iff a type was assigned, the type is unknown/RNA/DNA/amino, and a composition
+    of ten residues or fewer is never classified -/
+theorem guess_alphabet_basic (ct : List Int) :
+    (((Guess.guessAlphabet ct).1 = true ↔ (Guess.guessAlphabet ct).2 ≠ 0) ∧ (Guess.guessAlphabet ct).2 ≤ 3) ∧
+    (Guess.total ct ≤ 10 → Guess.guessAlphabet ct = (false, 0)) :=
+  ⟨Guess.guess_status ct, Guess.guess_small ct⟩
 
 /-! ## degenerate scores and counts (over ℚ: the code as a rational function; IEEE rounding is L0, compared bit-exactly
       against the real code by the correspondence run) -/
